@@ -208,6 +208,12 @@ Proof.
   eapply blk_mono; [|apply close_core_blk]. intros; apply stok_lowok; auto.
 Qed.
 
+(* the opening / closing functions give the flag back to their caller as they found it *)
+Theorem open_fn_flag d w : c_in_ts (w_c (open_fn d w)) = c_in_ts (w_c w).
+Proof. apply (open_fn_blk d (c_in_ts (w_c w)) w eq_refl). Qed.
+Theorem close_fn_flag d w : c_in_ts (w_c (close_fn d w)) = c_in_ts (w_c w).
+Proof. apply (close_fn_blk d (c_in_ts (w_c w)) w eq_refl). Qed.
+
 (* ------------------------------------------------------------------ callbacks *)
 Lemma cb_enter_flag k w : c_in_ts (w_c (cb_enter k w)) = c_in_ts (w_c w).
 Proof. unfold cb_enter; up; togs; reflexivity. Qed.
@@ -223,13 +229,22 @@ Proof.
   split; auto. exists seg. split; auto. rewrite E. unfold cb_enter; up. rewrite <- app_assoc, H. reflexivity.
 Qed.
 
+Lemma close_give_blk d a b w :
+  c_in_ts (w_c w) = b -> blk (midok b) b w (close_give d a w).
+Proof.
+  intros H. unfold close_give. cbv zeta. destruct (a_newbuf a).
+  - apply setc_blk; [apply logev_blk; cbn; auto|up; auto].
+  - apply logev_blk; cbn; auto.
+Qed.
+
 Lemma close_hand_blk d a o b w :
   c_in_ts (w_c w) = b -> blk (midok b) b w (close_hand d a o w).
 Proof.
   intros H. unfold close_hand. destruct (o && negb (c_open (w_c w))); [|apply blk_refl; auto].
-  cbv zeta. destruct (a_newbuf a).
-  - apply setc_blk; [apply logev_blk; cbn; auto|up; auto].
-  - apply logev_blk; cbn; auto.
+  pose proof (close_give_blk d a b w H) as B.
+  destruct (a_eager a); [|exact B].
+  eapply blk_trans; [exact B|]. eapply blk_mono; [|apply open_fn_blk, B].
+  intros; apply lowok_midok; auto.
 Qed.
 
 Lemma close_cb_shape d b w :
@@ -429,12 +444,21 @@ Proof.
   rewrite open_cb_eq, open_fn_eq, open_core_use, preamble_use. unfold cb_enter; up; togs. reflexivity.
 Qed.
 
+Lemma open_fn_use d w : c_use_ts (w_c (open_fn d w)) = c_use_ts (w_c w).
+Proof. rewrite open_fn_eq, open_core_use, preamble_use. reflexivity. Qed.
+Lemma close_fn_use d w : c_use_ts (w_c (close_fn d w)) = c_use_ts (w_c w).
+Proof. rewrite close_fn_eq, close_core_use, preamble_use. reflexivity. Qed.
+
+Lemma close_give_use d a w : c_use_ts (w_c (close_give d a w)) = c_use_ts (w_c w).
+Proof. unfold close_give. cbv zeta. destruct (a_newbuf a); reflexivity. Qed.
+
 Lemma close_cb_use d w : c_use_ts (w_c (close_cb d w)) = c_use_ts (w_c w).
 Proof.
-  rewrite close_cb_eq. unfold close_hand. cbv zeta.
+  rewrite close_cb_eq. unfold close_hand.
   assert (H : c_use_ts (w_c (close_fn d (cb_enter 2 w))) = c_use_ts (w_c w)).
-  { rewrite close_fn_eq, close_core_use, preamble_use. unfold cb_enter; up; togs. reflexivity. }
-  destruct (_ && _); [|exact H]. destruct (a_newbuf _); up; exact H.
+  { rewrite close_fn_use. unfold cb_enter; up; togs. reflexivity. }
+  destruct (_ && _); [|exact H].
+  destruct (a_eager _); [rewrite open_fn_use|]; rewrite close_give_use; exact H.
 Qed.
 
 Lemma with_use_ts_off f w : c_use_ts (w_c (with_use_ts f w)) = false.
